@@ -350,9 +350,9 @@ def r10_4(ctx, fx):
             ctx.ob("R10.4", "dial-failure/peer-is-the-/p2p-of-the-failed-address", any(re.search(r"PeerId::(from_multihash|try_from_multiaddr)$", x) for x in rp) and "param:_2" in rp and not any(x.startswith("param:_1") and "peers" not in x for x in rp), site=fn.site(n.node), cfg=fx.cfg, detail=str(sorted(rp))[:300])
             ri = guards.rootstrs(fn, ins[0].args[1])
             ctx.ob("R10.4", "dial-failure/inserts-that-record", any("AddressRecord::new" in x for x in ri), site=fn.site(ins[0].node), cfg=fx.cfg)
-            en = fn.calls(r"HashMap::entry$")
+            en = fn.calls(r"HashMap(<.*>)?::(entry|get_mut|insert)$")
             # (PeerId::try_from_multiaddr is the crate's helper for "the peer id of the trailing /p2p": R18 checks it)
-            ok = bool(en) and any(re.search(r"PeerId::(from_multihash|try_from_multiaddr)$", x) for x in guards.rootstrs(fn, en[0].args[1]))
+            ok = bool(en) and all(any(re.search(r"PeerId::(from_multihash|try_from_multiaddr)$", x) for x in guards.rootstrs(fn, e_.args[1])) for e_ in en)
             ctx.ob("R10.4", "dial-failure/under-the-entry-of-that-peer", ok, site=fn.site(ins[0].node), cfg=fx.cfg)
             bad = [n2 for n2, _ in fn.exits() if n2 in fn.reach([fn.entry], avoid=[ins[0].node])]
             # the only way to skip the insert is an address without /p2p (peer_id None)
